@@ -119,12 +119,16 @@ class Harness:
                 ev0.funcs.update(self.contract.interp(self, ev0, env))
             except Exception:
                 pass
-        for lab, r in self.requires:
-            try:
-                if not ev0.ev(r):
-                    return None, {"skipped": "precondition %s not satisfied" % lab}
-            except Unsupported as e:
-                return None, {"skipped": "cannot evaluate precondition %s: %s" % (lab, e)}
+        if self.contract.pre_py is not None:
+            if not self.contract.pre_py(env):
+                return None, {"skipped": "precondition not satisfied"}
+        else:
+            for lab, r in self.requires:
+                try:
+                    if not ev0.ev(r):
+                        return None, {"skipped": "precondition %s not satisfied" % lab}
+                except Unsupported as e:
+                    return None, {"skipped": "cannot evaluate precondition %s: %s" % (lab, e)}
         ret = self.cfunc(*args)
         for name, work in keep:
             env[name + "__post"] = work
@@ -217,14 +221,17 @@ def asan_fuzz(cfiles, contract, trials=200, seed=0):
                 ev0.funcs.update(contract.interp(h, ev0, env))
             except Exception:
                 pass
-        for lab, r in h.requires:
-            try:
-                if not ev0.ev(r):
+        if contract.pre_py is not None:
+            ok = bool(contract.pre_py(env))
+        else:
+            for lab, r in h.requires:
+                try:
+                    if not ev0.ev(r):
+                        ok = False
+                        break
+                except Unsupported:
                     ok = False
                     break
-            except Unsupported:
-                ok = False
-                break
         if ok:
             cases.append(case)
             kept.append(inputs)
